@@ -95,7 +95,7 @@ def specTs (rust : String) : Option String :=
   | some .unit => some "null"
   | none => none
 
-def serPrim (c : PrimClass) (v : RVal) : Option Json :=
+def serPrim (c : PrimClass) (v : RVal) : Option JVal :=
   match c, v with
   | .int lo hi nz, .int i => if lo ≤ i ∧ i ≤ hi ∧ (nz = false ∨ i ≠ 0) then some (.int i) else none
   | .float, .float r => some (.float r)
@@ -108,7 +108,7 @@ def serPrim (c : PrimClass) (v : RVal) : Option Json :=
   | _, _ => none
 
 /-- the JSON object key serde_json derives from a serialized key -/
-def keyOfJson : Json → Option Str
+def keyOfJson : JVal → Option Str
   | .str s => some s
   | .int i => some (toString i).toList
   | _ => none
@@ -116,7 +116,7 @@ def keyOfJson : Json → Option Str
 mutual
 /-- serde_json's output for a value of a library type; `none` = the value does not have that type
     (or serde_json refuses, e.g. a non-string-like map key) -/
-def serB (serN : Str → List RTy → RVal → Option Json) : RTy → RVal → Option Json
+def serB (serN : Str → List RTy → RVal → Option JVal) : RTy → RVal → Option JVal
   | .prim r, v => (primClass r).bind fun c => serPrim c v
   | .option _, .none => some .null
   | .option t, .some v => serB serN t v
@@ -136,20 +136,20 @@ def serB (serN : Str → List RTy → RVal → Option Json) : RTy → RVal → O
   | .wrap _ t, v => serB serN t v
   | .named id args, v => serN id args v
   | _, _ => none
-def serAllB (serN : Str → List RTy → RVal → Option Json) : RTy → List RVal → Option (List Json)
+def serAllB (serN : Str → List RTy → RVal → Option JVal) : RTy → List RVal → Option (List JVal)
   | _, [] => some []
   | t, v :: vs => do
       let j ← serB serN t v
       let js ← serAllB serN t vs
       pure (j :: js)
-def serZipB (serN : Str → List RTy → RVal → Option Json) : List RTy → List RVal → Option (List Json)
+def serZipB (serN : Str → List RTy → RVal → Option JVal) : List RTy → List RVal → Option (List JVal)
   | [], [] => some []
   | t :: ts, v :: vs => do
       let j ← serB serN t v
       let js ← serZipB serN ts vs
       pure (j :: js)
   | _, _ => none
-def serMapB (serN : Str → List RTy → RVal → Option Json) : RTy → RTy → List (RVal × RVal) → Option (List (Str × Json))
+def serMapB (serN : Str → List RTy → RVal → Option JVal) : RTy → RTy → List (RVal × RVal) → Option (List (Str × JVal))
   | _, _, [] => some []
   | k, v, (a, b) :: rest => do
       let kj ← serB serN k a
